@@ -18,6 +18,12 @@ CHECKS = {
  'C10': ('proof', 'Theorems: each leg = unattenuated value x exp(-m d) with d the un-normalised leg length, m=0 identity, antitone in m for every bin/order/length. Tie: stage-wise correspondence with band-dependent m; oracle: m=0 bitwise identity, ratios, monotonicity on the implementation.', '5 C10', 'algebraic law + monotonicity by induction (Lean 4), differential tie'),
  'C11': ('proof', 'Theorems: patch-wise formula (partial: no energy delayed past the end; D3 is a known finding), hidden patches contribute nothing, mono = sum over patches, receivers independent, direct-sound law. Tie: receiver kernel and collect stage correspondence; oracle evaluates the formula on the implementation.', '5 C11', 'decision logic + algebraic law (Lean 4), differential tie'),
  'C12': ('proof', 'The model is band-wise by construction; theorems (any scalar type) only guard the model. The weight is on the tie (band-dependent data, shape-coincidence cases D=B/P=B/S=B) and on the bitwise multi-band vs single-band oracle on the implementation; stated as such.', '5 C12', 'congruence theorem (Lean 4) + differential tie carrying the weight'),
+ 'C08': ('proof', 'Theorems over the Lean model of _create_patches/_process_patches (and the identical Kang loop): floor(side/p) x floor(side/p) cells, each patch the rectangle anchored at the minimum corner (congruent), cells cover the wall, interiors disjoint, areas sum to the wall area, enumeration bijective, wall attribution by index blocks, vertex-order independence, translation covariance. Tie: coordinates of the real functions (both engines, 3 planes, 8 orderings) bit for bit with the model.', '5 C08', 'algebraic law + decision logic (Lean 4), bit-exact differential tie'),
+ 'C13': ('proof', 'Theorems over the Lean model of create_from_scattering / create_from_directional_scattering: non-negative, reflects exactly 1-a for every incident direction on Gauss-type mirror-closed samplings (split s diffuse / 1-s mirror), symmetric, weight-scale free; directional coefficients summing to 1 reflect 1-a. Sampling hypotheses are decidable predicates checked on every generated sampling. Tie: real constructors vs model (1e-12), mirror index vs nearest-sample rule.', '5 C13', 'algebraic law (Lean 4), differential tie'),
+ 'C14': ('proof', 'Theorems: wall frame [u | n x u | n] is a proper rotation with R e_z = n, R e_x = u, preserves inner products, scale-free in n and u; rotated directions are unit vectors in the outer half space; nearest sample (first argmin of the chord distance) = first sample of maximal cosine; the four lookups apply it to the geometric direction in the wall of the looked-up patch. Tie: real _rotate_coords_to_normal (pyfar/scipy Euler route) vs model on random and axis frames; index maps vs model with near-ties set aside; oracle: brute-force nearest angle.', '5 C14', 'algebraic law + argmin specification (Lean 4), differential tie'),
+ 'C15': ('proof', 'Life-cycle model over terms: for every continuation after a save/restore the restored object differs at most in the unsaved _source, is identical after the next source initialisation, and every receiver collection is identical; kernel-checked witness for the direct-sound loss (known finding D8). Generated facts (re-extracted every run): to_dict keys = constructor parameters, None encoded/decoded on both paths, __eq__ compares to_dict, write footprints per method, the only unserialised attribute a pipeline method reads is _source. Tie: random histories with restores on real objects: term none <=> attribute None, equal terms => equal content hashes; oracle: round trip at every stage x continue both objects bit for bit (and a completed Kang run).', '5 C15', 'invariant by induction over operation histories (Lean 4) + translator + history correspondence'),
+ 'C16': ('proof', 'Life-cycle model: for every history of the grammar setters*;bake+;(init+;exchange(recalculate)+)* the whole state equals that of the canonical fresh history (config_determines); stages idempotent; setters commute up to the private table numbering; downstream reads materials only through per-wall effective tables; generated facts: read footprints of init/exchange/bake, no in-place mutation site targets a parameter. Tie: history correspondence (terms vs content hashes) incl. canonical twin of every history; oracle: history vs fresh object bit for bit, setter permutations, repeated stages, caller inputs hashed before/after each call.', '5 C16', 'invariant by induction over histories (Lean 4) + translator + history correspondence'),
+ 'C18': ('proof', 'check() and the __init__ conversions are TRANSLATED from the source on every run (symbolic execution of the method body into Lean reject conditions over an abstract configuration); theorems: whatever is accepted satisfies every documented constraint (all ranks, lengths, ids, scalars), a rejection is always ValueError, valid states whose walls all own a patch are accepted; kernel-evaluated examples. Tie: every catalogue corruption x every stage through the real from_dict, outcome compared with the generated checker run by the driver.', '5 C18', 'translator (regenerated model) + soundness proof (Lean 4) + differential tie'),
 }
 
 NA = {}
